@@ -75,6 +75,63 @@ class _Junk:
     """a value nothing can be computed with"""
 
 
+def step_edits(step):
+    if step.get("edits"):
+        return [e for e in step["edits"] if e]
+    return [step["edit"]] if step.get("edit") else []
+
+
+def _at(root, path, skip=None):
+    nd = root
+    for j in path:
+        nd = [ch for ch in nd.children if ch is not skip][j]
+    return nd
+
+
+def _apply_edit_impl(root, ed, fresh):
+    """one structural change on the real tree; returns the (possibly new) root"""
+    kind = ed[0]
+    if kind == "rev":
+        nd = _at(root, ed[1])
+        nd.children = list(nd.children)[::-1]
+    elif kind == "add":
+        nd = _at(root, ed[1])
+        ch = list(nd.children)
+        ch.insert(ed[2], fresh())
+        nd.children = ch
+    elif kind == "del":
+        nd = _at(root, ed[1])
+        ch = list(nd.children)
+        ch.pop(ed[2])
+        nd.children = ch
+    elif kind == "move":
+        node = _at(root, ed[1])
+        target = _at(root, ed[2], skip=node)          # path in the tree without the moved subtree
+        rest = [ch for ch in target.children if ch is not node]
+        if ed[4] == "parent" and ed[3] == len(rest):
+            node.parent = target                      # appended as last child
+        else:
+            rest.insert(ed[3], node)
+            target.children = rest
+    elif kind == "cut":
+        node = _at(root, ed[1])
+        node.parent = None
+        return node
+    elif kind == "reroot":
+        node = _at(root, ed[1])
+        node.parent = None
+        ch = list(node.children)
+        if ed[2] == len(ch) and len(ed) > 3 and ed[3] == "parent":
+            root.parent = node
+        else:
+            ch.insert(ed[2], root)
+            node.children = ch
+        return node
+    else:
+        raise ValueError(kind)
+    return root
+
+
 def _identity(root):
     out = []
 
@@ -160,22 +217,20 @@ def run_impl(prop, case):
         raise AssertionError("reingold_tilford returned a value")
     if _identity(root) != before or _shape(root) != pre:
         raise AssertionError("reingold_tilford changed the structure, the names or a user attribute of the tree")
+    def read_all(top):
+        # what a user does between two layouts; primes whatever the node classes cache
+        for nd in [top] + list(top.descendants):
+            nd.depth, nd.get_attr("x"), nd.get_attr("y"), nd.is_leaf
+        top.max_depth
+
     for step in case.get("steps", []):
-        ed = step.get("edit")
-        if ed:
-            nd = root
-            for j in ed[1]:
-                nd = nd.children[j]
-            ch = list(nd.children)
-            if ed[0] == "rev":
-                ch.reverse()
-            elif ed[0] == "add":
-                ch.insert(ed[2], fresh())
-            elif ed[0] == "del":
-                ch.pop(ed[2])
-            else:
-                raise ValueError(ed[0])
-            nd.children = ch
+        if step.get("read"):
+            read_all(root)
+        for ed in step_edits(step):
+            root = _apply_edit_impl(root, ed, fresh)
+            if step.get("read"):
+                read_all(root)
+        start = root
         before = _identity(root)
         shape_before = _shape(root)
         _call(reingold_tilford, start, step["par"], ptype, style)
@@ -224,12 +279,19 @@ def _cedit(ed):
         return f"EAdd {_cpath(ed[1])} {int(ed[2])}%nat"
     if ed[0] == "del":
         return f"EDel {_cpath(ed[1])} {int(ed[2])}%nat"
+    if ed[0] == "move":
+        return f"EMove {_cpath(ed[1])} {_cpath(ed[2])} {int(ed[3])}%nat"
+    if ed[0] == "cut":
+        return f"ECut {_cpath(ed[1])}"
+    if ed[0] == "reroot":
+        return f"EReroot {_cpath(ed[1])} {int(ed[2])}%nat"
     raise ValueError(ed[0])
 
 
 def emit(prop, case, obs):
     pt = case.get("ptype", "float")
-    steps = clist(f"({_cedit(st.get('edit'))}, {_cpar(st['par'], pt)})" for st in case.get("steps", []))
+    steps = clist(f"({clist(_cedit(e) for e in step_edits(st))}, {_cpar(st['par'], pt)})"
+                  for st in case.get("steps", []))
     out = _cout(obs["out"]) if "out" in obs else "c (0)%Z 1 (0)%Z 1 []"
     raised = "None" if obs.get("raised") is None else f"(Some {int(obs['raised'])}%nat)"
     return (f"PC ({_cpar(case['par'], pt)}) ({_ctree(obs['pre'])}) {_cpath(case.get('start', []))} {steps} "
@@ -242,7 +304,7 @@ def last_par(case):
 
 
 def has_edit(case):
-    return any(st.get("edit") for st in case.get("steps") or [])
+    return any(step_edits(st) for st in case.get("steps") or [])
 
 
 # ---------------------------------------------------------------------------------------------
@@ -393,6 +455,21 @@ def corpus(prop):
                            "start": [0], "stratum": "corpus"}),
         ("subtree-start-deep", {"cls": "Node", "tree": [[], [[[], [], []], []]], "par": u, "start": [1, 0],
                                 "stratum": "corpus"}),
+        # an inner node moved to a parent at another depth between two layouts (depth of its descendants changes)
+        ("move-subtree-up", {"cls": "Node", "tree": [[[[], []], []], []], "par": u,
+                             "steps": [{"edits": [["move", [0, 0], [], 2, "parent"]], "par": u}], "stratum": "corpus"}),
+        ("move-subtree-down", {"cls": "Node", "tree": [[[], []], [[[]]], []], "par": u,
+                               "steps": [{"edits": [["move", [0], [0, 0], 0, "children"]], "par": v, "read": True}],
+                               "stratum": "corpus"}),
+        ("swap-subtrees", {"cls": "Node", "tree": [[[[]], []], [[], [[], []]]], "par": u,
+                           "steps": [{"edits": [["move", [0, 0], [0], 1, "children"], ["move", [1, 1], [0], 0, "children"]],
+                                      "par": u}], "stratum": "corpus"}),
+        ("cut-piece", {"cls": "Node", "tree": [[], [[[], []], [[]]]], "par": u,
+                       "steps": [{"edits": [["cut", [1]]], "par": v, "read": True}], "stratum": "corpus"}),
+        ("reroot", {"cls": "Node", "tree": [[[], [[]]], [[], []]], "par": u,
+                    "steps": [{"edits": [["reroot", [0, 1], 1, "parent"]], "par": u}], "stratum": "corpus"}),
+        ("delete-subtree", {"cls": "Node", "tree": [[[[], []]], [[], []], []], "par": u,
+                            "steps": [{"edits": [["del", [], 0]], "par": u}], "stratum": "corpus"}),
         # known finding K5: every BinaryNode tree (children holds None slots) makes the call raise AttributeError
         ("K5-binary-single", {"cls": "BinaryNode", "btree": [None, None], "tree": [], "par": u, "stratum": "corpus"}),
         ("K5-binary-left-only", {"cls": "BinaryNode", "btree": [[None, None], None], "tree": [[]], "par": u,
@@ -677,12 +754,18 @@ def generate(prop, rng, tier):
             steps = []
             edited = False
             for _ in range(rng.choice([1, 1, 2])):
-                ed = None
-                if rng.random() < 0.5:
-                    ed, cur = gen_edit(rng, cur)
-                    edited = edited or ed is not None
+                eds = []
+                if rng.random() < 0.6:
+                    for _ in range(rng.choice([1, 1, 2])):
+                        ed, cur = gen_edit(rng, cur)
+                        if ed is not None:
+                            eds.append(ed)
+                    edited = edited or bool(eds)
                 par = list(case["par"]) if rng.random() < 0.3 else gen_params(rng, rng.choice(pkinds))
-                steps.append({"edit": ed, "par": par})
+                st = {"edits": eds, "par": par}
+                if rng.random() < 0.4:
+                    st["read"] = True
+                steps.append(st)
             if case.get("ptype") == "int":
                 for st in steps:
                     st["par"] = [float(round(v)) if round(v) >= 1 or i >= 3 else 1.0 for i, v in enumerate(st["par"])]
@@ -709,9 +792,20 @@ def _replace(t, path, new):
     return t[:path[0]] + [_replace(t[path[0]], path[1:], new)] + t[path[0] + 1:]
 
 
+def _sub(t, path):
+    for j in path:
+        t = t[j]
+    return t
+
+
+def _delnode(t, path):
+    par = _sub(t, path[:-1])
+    return _replace(t, path[:-1], par[:path[-1]] + par[path[-1] + 1:])
+
+
 def gen_edit(rng, t):
-    """(edit, tree after the edit); None when the chosen kind is not applicable"""
-    kind = rng.choice(["add", "add", "append", "rev", "del"])
+    """(edit, tree after the edit); (None, t) when the chosen kind is not applicable"""
+    kind = rng.choice(["add", "append", "rev", "del", "delsub", "move", "move", "move", "move", "cut", "reroot"])
     nodes = list(_paths(t))
     if kind in ("add", "append"):
         inner = [(p, k) for p, k in nodes if k]
@@ -724,11 +818,36 @@ def gen_edit(rng, t):
             return None, t
         p, k = rng.choice(cands)
         return ["rev", p], _replace(t, p, k[::-1])
-    cands = [(p, k, i) for p, k in nodes for i, c in enumerate(k) if not c]
-    if not cands:
+    if kind in ("del", "delsub"):
+        cands = [(p, k, i) for p, k in nodes for i, c in enumerate(k) if bool(c) == (kind == "delsub")]
+        if not cands:
+            return None, t
+        p, k, i = rng.choice(cands)
+        return ["del", p, i], _replace(t, p, k[:i] + k[i + 1:])
+    inner = [p for p, k in nodes if p and k]          # non-root nodes with children
+    movable = inner if inner and rng.random() < 0.8 else [p for p, k in nodes if p]
+    if not movable:
         return None, t
-    p, k, i = rng.choice(cands)
-    return ["del", p, i], _replace(t, p, k[:i] + k[i + 1:])
+    src = rng.choice(movable)
+    sub = _sub(t, src)
+    if kind == "cut":
+        return ["cut", src], sub
+    rest = _delnode(t, src)
+    if kind == "reroot":
+        i = rng.randint(0, len(sub))
+        ed = ["reroot", src, i] + (["parent"] if i == len(sub) and rng.random() < 0.6 else [])
+        return ed, sub[:i] + [rest] + sub[i:]
+    # move: to a node of another depth (up / down) or of the same depth (sideways)
+    targets = list(_paths(rest))
+    want = rng.choice(["up", "down", "same", "any"])
+    d0 = len(src) - 1                                  # depth of the current parent
+    pick = [(q, k) for q, k in targets
+            if want == "any" or (want == "up" and len(q) < d0) or (want == "down" and len(q) > d0)
+            or (want == "same" and len(q) == d0)]
+    q, k = rng.choice(pick or targets)
+    i = len(k) if rng.random() < 0.5 else rng.randint(0, len(k))
+    via = "parent" if i == len(k) and rng.random() < 0.7 else "children"
+    return ["move", src, q, i, via], _replace(rest, q, k[:i] + [sub] + k[i:])
 
 
 # ---------------------------------------------------------------------------------------------
@@ -756,7 +875,7 @@ def shrink_candidates(prop, case):
     for k, st in enumerate(steps):
         if st["par"] != [1.0, 1.0, 1.0, 0.0, 0.0]:
             c = dict(case)
-            c["steps"] = steps[:k] + [{"edit": st.get("edit"), "par": [1.0, 1.0, 1.0, 0.0, 0.0]}] + steps[k + 1:]
+            c["steps"] = steps[:k] + [dict(st, par=[1.0, 1.0, 1.0, 0.0, 0.0])] + steps[k + 1:]
             yield c
     for key in ("junk", "ptype", "call"):
         if case.get(key) not in (None, "kw", "float"):
@@ -800,8 +919,10 @@ def rule(prop):
             "multi-level subtrees / zigzag = facing contours that continue below a sibling of the contour node, depth <= 7 / negwide = the smallest preliminary x is at a leaf that is not the left-most one / sandwich = 3-5 siblings, deep wide subtrees separated by shallow ones, also nested / path / star, plus every ordered tree with <= 6 nodes (quick) or <= 7 nodes x 6 "
             "parameter sets (thorough)) x positive separations (unit / dyadic / non-dyadic / mixed) and non-negative "
             "offsets; about 30 % of the generated cases lay the same tree object out again once or twice (same or other "
-            "parameters), half of those after a structural change (leaf inserted / appended / removed, children "
-            "reversed); ~10 % of the single-call cases make the call on a first child instead of the root; parameters are "
+            "parameters), most of those after one or two structural changes (leaf inserted / appended, leaf or subtree removed, "
+            "children reversed, a subtree moved up / down / sideways by node.parent = or target.children =, a piece cut "
+            "off and laid out on its own, the tree re-rooted), 40 % with depth / max_depth / x / y / is_leaf read on every "
+            "node before and between the changes; ~10 % of the single-call cases make the call on a first child instead of the root; parameters are "
             "passed as floats / ints (15 %) / Fractions (10 %), by keyword / positionally / with defaults omitted; 15 % of the "
             "cases pre-set x, y, mod, shift with junk values; classes Node / BaseNode / a user subclass; strata verywide "
             "(fan-out 10-12) and cancel (x_offset / y_offset, also negative, that cancel preliminary coordinates, mods or "
